@@ -169,6 +169,21 @@ func H_C06_isset() {
 	} else {
 		zzrt.Assert(int64(p.GetOe()) == 5, "getter of an unset enum field returns the default")
 	}
+	// optional binary with a default: nil, empty and two free bytes (nil differs from the default too)
+	switch zzrt.Choose("obd", 3) {
+	case 0:
+		p.Obd = nil
+	case 1:
+		p.Obd = []byte{}
+	default:
+		p.Obd = zzrt.Bytes("obd", 2)
+	}
+	zzrt.Assert(p.IsSetObd() == (string(p.Obd) != "bb"), "IsSetObd <=> value differs from the default (a nil binary differs from a non-empty default)")
+	if p.IsSetObd() {
+		zzrt.Assert(string(p.GetObd()) == string(p.Obd), "getter of a set binary field")
+	} else {
+		zzrt.Assert(string(p.GetObd()) == "bb", "getter of an unset binary field returns the default")
+	}
 	// pointer optionals: set <=> non-nil; getter of unset returns the zero default
 	zzrt.Assert(!p.IsSetOptr() && p.GetOptr() == 0, "unset optional i16")
 	zzrt.Assert(!p.IsSetOstr() && p.GetOstr() == "", "unset optional string")
@@ -178,6 +193,7 @@ func H_C06_isset() {
 	// getters of fields holding their default
 	q := NewDefs()
 	zzrt.Assert(q.GetOi() == 6 && q.GetOs() == "o\"s" && q.GetOb() == true && q.GetOd() == 4.0 && int64(q.GetOe()) == 5, "getters of unset optionals return the declared default")
+	zzrt.Assert(!q.IsSetObd() && string(q.GetObd()) == "bb", "optional binary with a default after construction")
 	zzrt.Assert(!q.IsSetOi() && !q.IsSetOs() && !q.IsSetOb() && !q.IsSetOd() && !q.IsSetOe(), "a fresh struct reports its optional-with-default fields as unset")
 	zzrt.Assert(q.IsSetOl() && q.IsSetOn(), "optional container / struct with a default is set after construction")
 	var nilp *Defs
